@@ -1,106 +1,145 @@
-import NbioVerif.Properties.C06
-/-! probe: one production of C07 — feeding a well-formed header line to the spec machine yields exactly
-    one `header` event with the canonical key and the value, and returns to `headerKeyBefore` with an empty token -/
+import NbioVerif.Lemmas.C07Start
+/-! C07 productions: a header line, the header section, and what the parser has recorded at the blank line. -/
 namespace Http
 open Scan
 
-abbrev M (g : Cfg) := machine g
+/-- parser state after a header field has been recorded -/
+def afterHdr (p : P) (k v : Bytes) : P := { setSpecial p k v with headerExists := true }
 
-theorem tok_facts (c : UInt8) (h : isToken c = true) : c ≠ SP ∧ c ≠ 58 ∧ c ≠ CR ∧ c ≠ LF := by
-  have hn : c.toNat ≠ 32 ∧ c.toNat ≠ 58 ∧ c.toNat ≠ 13 ∧ c.toNat ≠ 10 := by
-    simp only [isToken, isNum, isAlpha, isUpper, isLower, Bool.or_eq_true, Bool.and_eq_true, decide_eq_true_eq,
-      List.contains_eq_mem, List.mem_cons, List.mem_nil_iff, or_false] at h
-    omega
-  refine ⟨?_, ?_, ?_, ?_⟩ <;> (intro e; subst e; simp [SP, CR, LF] at hn)
+/-- what the parser needs from a header field as written -/
+def Hdr.parsable (h : Hdr) : Prop :=
+  h.name ≠ [] ∧ (∀ c ∈ h.name, isToken c = true) ∧ (∀ c ∈ h.value, c ≠ CR ∧ c ≠ LF) ∧ h.value.head? ≠ some SP
 
-/-- one spec step in a non-block state -/
-theorem spec_cons (g : Cfg) (p : P) (tok : Bytes) (c : UInt8) (cs : Bytes) (acc : List Ev)
-    (hb : block p = none) :
-    specFeed (M g) p tok (c :: cs) acc =
-      match byteStep g p tok c with
-      | .ok s' u evs => specFeed (M g) s' (match u with | .keep => tok ++ [c] | .here => [c] | .next => []) cs (acc ++ evs)
-      | .err e evs => ⟨acc ++ evs, .inr e⟩ := by
-  simp only [specFeed, specByte, machine, hb]
-  cases byteStep g p tok c <;> rfl
+theorem Hdr.wf_parsable (h : Hdr) (hw : h.wf = true) : h.parsable := by
+  simp only [Hdr.wf, Bool.and_eq_true, decide_eq_true_eq, List.all_eq_true, bne_iff_ne, ne_eq] at hw
+  obtain ⟨⟨⟨h1, h2⟩, h3⟩, h4⟩ := hw
+  exact ⟨h1, h2, fun c hc => fieldByte_facts c (h3 c hc), h4⟩
 
-/-- scanning token characters of a header name -/
-theorem headerKey_scan (g : Cfg) (ks : Bytes) (hk : ∀ c ∈ ks, isToken c = true) :
-    ∀ (p : P) (tok rest : Bytes) (acc : List Ev), p.st = .headerKey →
-      specFeed (M g) p tok (ks ++ rest) acc = specFeed (M g) p (tok ++ ks) rest acc := by
-  induction ks with
-  | nil => intro p tok rest acc _; simp
-  | cons c cs ih =>
-    intro p tok rest acc hp
-    have ⟨h1, h2, h3, h4⟩ := tok_facts c (hk c (by simp))
-    have hb : block p = none := by simp [block, hp]
-    rw [List.cons_append, spec_cons g p tok c _ acc hb]
-    have hstep : byteStep g p tok c = .ok p .keep [] := by
-      simp [byteStep, hp, h1, h2, h3, h4, hk c (by simp), ok]
-    rw [hstep]
-    simp only [List.append_nil]
-    rw [ih (fun x hx => hk x (by simp [hx])) p (tok ++ [c]) rest acc hp]
-    simp
-
-/-- scanning the characters of a header value -/
-theorem headerValue_scan (g : Cfg) (vs : Bytes) (hv : ∀ c ∈ vs, c ≠ CR ∧ c ≠ LF) :
-    ∀ (p : P) (tok rest : Bytes) (acc : List Ev), p.st = .headerValue →
-      specFeed (M g) p tok (vs ++ rest) acc = specFeed (M g) p (tok ++ vs) rest acc := by
-  induction vs with
-  | nil => intro p tok rest acc _; simp
-  | cons c cs ih =>
-    intro p tok rest acc hp
-    have ⟨h1, h2⟩ := hv c (by simp)
-    have hb : block p = none := by simp [block, hp]
-    rw [List.cons_append, spec_cons g p tok c _ acc hb]
-    have hstep : byteStep g p tok c = .ok p .keep [] := by
-      simp [byteStep, hp, h1, h2, ok]
-    rw [hstep]
-    simp only [List.append_nil]
-    rw [ih (fun x hx => hv x (by simp [hx])) p (tok ++ [c]) rest acc hp]
-    simp
-
-/-- the header-line production: `k0 ks ':' ' ' v0 vs CR LF` -/
-theorem header_line (g : Cfg) (p : P) (tok : Bytes) (k0 : UInt8) (ks : Bytes) (v0 : UInt8) (vs rest : Bytes)
-    (acc : List Ev)
-    (hp : p.st = .headerKeyBefore) (hkey : p.hKey = []) (hval : p.hVal = [])
-    (hk0 : isToken k0 = true) (hks : ∀ c ∈ ks, isToken c = true)
-    (hv0 : v0 ≠ SP ∧ v0 ≠ CR ∧ v0 ≠ LF) (hvs : ∀ c ∈ vs, c ≠ CR ∧ c ≠ LF) :
-    specFeed (M g) p tok (k0 :: ks ++ [58, SP] ++ v0 :: vs ++ [CR, LF] ++ rest) acc =
-      specFeed (M g)
-        { setSpecial { p with headerExists := true, hKey := canonicalKey (k0 :: ks) } (canonicalKey (k0 :: ks)) (v0 :: vs)
-            with hKey := [], hVal := [], st := .headerKeyBefore, headerExists := true }
-        [] rest (acc ++ [.header (canonicalKey (k0 :: ks)) (v0 :: vs)]) := by
-  have ⟨a1, a2, a3, a4⟩ := tok_facts k0 hk0
-  -- first key char
-  have hb0 : block p = none := by simp [block, hp]
-  simp only [List.cons_append, List.append_assoc]
-  rw [spec_cons g p tok k0 _ acc hb0]
-  have s1 : byteStep g p tok k0 = .ok { p with st := .headerKey, headerExists := true } .here [] := by
-    simp [byteStep, hp, a1, a3, a4, hk0, ok]
-  rw [s1]; simp only [List.append_nil]
-  -- rest of key
-  rw [headerKey_scan g ks hks _ [k0] _ acc rfl]
+/-- the header-line production: `name ":" SP* value CR LF` -/
+theorem header_line (g : Cfg) (p : P) (tok : Bytes) (h : Hdr) (rest : Bytes) (acc : List Ev)
+    (hp : p.st = .headerKeyBefore) (hkey : p.hKey = []) (hval : p.hVal = []) (hh : h.parsable) :
+    specFeed (M g) p tok (h.render ++ rest) acc =
+      specFeed (M g) (afterHdr p h.key h.evValue) [] rest (acc ++ [.header h.key h.evValue]) := by
+  obtain ⟨name, pad, value⟩ := h
+  obtain ⟨hne, hname, hvalue, hhead⟩ := hh
+  simp only at hne hname hvalue hhead
+  cases name with
+  | nil => exact absurd rfl hne
+  | cons k0 ks =>
+  have ⟨a1, _, a3, a4⟩ := tok_facts k0 (hname k0 (by simp))
+  simp only [Hdr.render, Hdr.key, Hdr.evValue, List.cons_append, List.append_assoc, List.nil_append, crlf]
+  -- first name byte
+  rw [spec_step g p tok k0 _ acc { p with st := .headerKey, headerExists := true } .here [] (by simp [block, hp])
+        (by simp [byteStep, hp, a1, a3, a4, hname k0 (by simp), ok])]
+  simp only [nextTok_here, List.append_nil]
+  -- rest of the name
+  rw [scan_keep g { p with st := .headerKey, headerExists := true } (by simp [block]) ks
+        (by intro c hc tok'
+            have ⟨b1, b2, b3, b4⟩ := tok_facts c (hname c (by simp [hc]))
+            simp [byteStep, ok, b1, b2, b3, b4, hname c (by simp [hc])])]
   -- ':'
-  rw [spec_cons g _ _ 58 _ acc (by simp [block])]
-  simp only [byteStep, ok, show ((58 : UInt8) == SP) = false by decide, show ((58:UInt8) == 58) = true by decide,
-    Bool.false_eq_true, if_false, if_true, hkey, List.singleton_append, List.append_nil]
-  -- ' '
-  rw [spec_cons g _ _ SP _ acc (by simp [block])]
-  simp only [byteStep, ok, show (SP == SP) = true by decide, if_true, List.append_nil, List.nil_append]
-  -- first value char
-  rw [spec_cons g _ _ v0 _ acc (by simp [block])]
-  have ⟨b1, b2, b3⟩ := hv0
-  simp only [byteStep, ok, b1, b2, b3, beq_iff_eq, if_false, List.append_nil]
-  -- rest of value
-  rw [headerValue_scan g vs hvs _ [v0] _ acc rfl]
-  -- CR
-  rw [spec_cons g _ _ CR _ acc (by simp [block])]
-  simp only [byteStep, ok, show (CR == CR) = true by decide, if_true, hval, List.singleton_append]
-  -- LF
-  rw [spec_cons g _ _ LF _ _ (by simp [block])]
-  simp only [byteStep, ok, show (LF == LF) = true by decide, if_true, List.append_nil]
-  congr 1
-  simp only [setSpecial]
+  rw [spec_step g _ _ 58 _ acc
+        { p with st := .headerValueBefore, headerExists := true, hKey := canonicalKey ([k0] ++ ks) } .next []
+        (by simp [block]) (by simp [byteStep, ok, hkey, SP])]
+  simp only [nextTok_next, List.append_nil, List.singleton_append]
+  -- padding
+  rw [scan_keep g { p with st := .headerValueBefore, headerExists := true, hKey := canonicalKey (k0 :: ks) }
+        (by simp [block]) (List.replicate pad SP)
+        (by intro c hc tok'; have := List.eq_of_mem_replicate hc; subst this; simp [byteStep, ok])]
+  simp only [List.nil_append]
+  cases value with
+  | nil =>
+    simp only [List.nil_append, if_true]
+    rw [spec_step g _ _ CR _ acc _ .next [.header (canonicalKey (k0 :: ks)) (List.replicate pad SP)] (by simp [block])
+          (by simp only [byteStep, ok, hval]; simp [CR, SP]; rfl)]
+    rw [spec_step g _ _ LF _ _ _ .next [] (by simp [block]) (by simp only [byteStep, ok]; simp; rfl)]
+    simp only [nextTok_next, List.append_nil]
+    congr 1
+    cases p
+    simp only at hp hkey hval
+    subst hp hkey hval
+    simp only [afterHdr, setSpecial]
+    split <;> (try split) <;> (try split) <;> simp [SP]
+  | cons v0 vs =>
+    have hv0 : v0 ≠ SP := by simpa using hhead
+    have ⟨c1, c2⟩ := hvalue v0 (by simp)
+    simp only [List.cons_append, reduceCtorEq, if_false]
+    rw [spec_step g _ _ v0 _ acc
+          { p with st := .headerValue, headerExists := true, hKey := canonicalKey (k0 :: ks) } .here []
+          (by simp [block]) (by simp [byteStep, ok, hv0, c1, c2])]
+    simp only [nextTok_here, List.append_nil]
+    rw [scan_keep g { p with st := .headerValue, headerExists := true, hKey := canonicalKey (k0 :: ks) }
+          (by simp [block]) vs
+          (by intro c hc tok'; have := hvalue c (by simp [hc]); simp [byteStep, ok, this.1, this.2])]
+    rw [spec_step g _ _ CR _ acc _ .next [.header (canonicalKey (k0 :: ks)) (v0 :: vs)] (by simp [block])
+          (by simp only [byteStep, ok, hval]; simp; rfl)]
+    rw [spec_step g _ _ LF _ _ _ .next [] (by simp [block]) (by simp only [byteStep, ok]; simp; rfl)]
+    simp only [nextTok_next, List.append_nil]
+    congr 1
+    cases p
+    simp only at hp hkey hval
+    subst hp hkey hval
+    simp only [afterHdr, setSpecial]
+    split <;> (try split) <;> (try split) <;> simp [SP]
+
+/-! ### the header section -/
+
+def fieldsOf (hs : List Hdr) : List (Bytes × Bytes) := hs.map fun h => (h.key, h.evValue)
+
+def afterHdrs (p : P) (hs : List Hdr) : P := hs.foldl (fun p h => afterHdr p h.key h.evValue) p
+
+theorem afterHdr_fields (p : P) (k v : Bytes) :
+    (afterHdr p k v).st = p.st ∧ (afterHdr p k v).hKey = p.hKey ∧ (afterHdr p k v).hVal = p.hVal := by
+  simp only [afterHdr, setSpecial]
   split <;> (try split) <;> (try split) <;> simp
+
+theorem header_lines (g : Cfg) (hs : List Hdr) :
+    ∀ (p : P) (tok rest : Bytes) (acc : List Ev),
+      p.st = .headerKeyBefore → p.hKey = [] → p.hVal = [] → (∀ h ∈ hs, h.parsable) →
+      ∃ tok', specFeed (M g) p tok ((hs.map Hdr.render).flatten ++ rest) acc =
+        specFeed (M g) (afterHdrs p hs) tok' rest (acc ++ hs.map (fun h => Ev.header h.key h.evValue)) := by
+  induction hs with
+  | nil => intro p tok rest acc _ _ _ _; exact ⟨tok, by simp [afterHdrs]⟩
+  | cons h hs ih =>
+    intro p tok rest acc hp hk hv hall
+    have ⟨f1, f2, f3⟩ := afterHdr_fields p h.key h.evValue
+    obtain ⟨tok', e⟩ := ih (afterHdr p h.key h.evValue) [] rest (acc ++ [.header h.key h.evValue])
+      (by rw [f1, hp]) (by rw [f2, hk]) (by rw [f3, hv]) (fun x hx => hall x (by simp [hx]))
+    refine ⟨tok', ?_⟩
+    simp only [List.map_cons, List.flatten_cons, List.append_assoc]
+    rw [header_line g p tok h _ acc hp hk hv (hall h (by simp)), e]
+    simp [afterHdrs]
+
+theorem valuesOf_cons (k v : Bytes) (fs : List (Bytes × Bytes)) (K : Bytes) :
+    valuesOf ((k, v) :: fs) K = if k == K then v :: valuesOf fs K else valuesOf fs K := by
+  simp only [valuesOf, List.filter_cons]
+  split <;> simp
+
+theorem names_distinct :
+    str "Transfer-Encoding" ≠ str "Trailer" ∧ str "Transfer-Encoding" ≠ str "Content-Length" ∧
+    str "Trailer" ≠ str "Content-Length" := by decide
+
+/-- what the parser has recorded when it reaches the blank line: the values of the three framing fields -/
+theorem afterHdrs_eq (hs : List Hdr) : ∀ (p : P),
+    afterHdrs p hs =
+      { p with te := p.te ++ valuesOf (fieldsOf hs) (str "Transfer-Encoding"),
+               tr := p.tr ++ valuesOf (fieldsOf hs) (str "Trailer"),
+               cl := p.cl ++ valuesOf (fieldsOf hs) (str "Content-Length"),
+               headerExists := p.headerExists || !hs.isEmpty } := by
+  induction hs with
+  | nil => intro p; simp [afterHdrs, fieldsOf, valuesOf]
+  | cons h hs ih =>
+    intro p
+    have ⟨d1, d2, d3⟩ := names_distinct
+    have step : afterHdrs p (h :: hs) = afterHdrs (afterHdr p h.key h.evValue) hs := by simp [afterHdrs]
+    rw [step, ih]
+    simp only [fieldsOf, List.map_cons, valuesOf_cons, afterHdr, setSpecial]
+    by_cases h1 : h.key = str "Transfer-Encoding"
+    · simp [h1, d1, d2]
+    · by_cases h2 : h.key = str "Trailer"
+      · simp [h2, d1.symm, d3]
+      · by_cases h3 : h.key = str "Content-Length"
+        · simp [h3, d2.symm, d3.symm]
+        · simp [h1, h2, h3]
 
 end Http
